@@ -72,6 +72,14 @@ def gen(rnd, idx=0, nfiles=None, ntypes=None, ncmds=None, nevents=None, validato
             items.append(Item("type", only, rg.struct_src(only, [("seq", "u32"), ("note", "Option<String>")])))
             items.append(Item("event", nm + "_twice", "pub fn %s_twice(app: AppHandle, first: %s, second: %s) {\n    app.emit(\"%s\", first).unwrap();\n    app.emit(\"%s\", second).unwrap();\n}\n\n"
                               % (nm, pt, only, evn + "-twice", evn + "-twice")))
+    inline_only = []
+    if rnd.random() < 0.4:
+        # a file whose only top-level items are inline modules holding serde types that commands elsewhere use
+        for k in range(rnd.randint(1, 2)):
+            nm = "Inl%d_%d" % (idx, k)
+            body = rg.struct_src(nm, [("flag", "bool"), ("label", "String")])
+            inline_only.append(Item("type", nm, "pub mod holder_%d_%d {\n    use super::*;\n%s}\n\n" % (idx, k, "".join("    " + ln + "\n" if ln else "\n" for ln in body.rstrip("\n").split("\n")))))
+            items.append(Item("command", "uses_inl_%d_%d" % (idx, k), rg.command_src("uses_inl_%d_%d" % (idx, k), [("x", nm)], "Vec<%s>" % nm)))
     files = {"f%d.rs" % i: [] for i in range(nfiles)}
     paths = list(files)
     if nfiles > 2 and rnd.random() < 0.5:
@@ -79,6 +87,8 @@ def gen(rnd, idx=0, nfiles=None, ntypes=None, ncmds=None, nevents=None, validato
         files = {p: [] for p in paths}
     for it in items:
         files[rnd.choice(paths)].append(it)
+    if inline_only:
+        files["models_inline.rs"] = inline_only
     return files
 
 
